@@ -107,7 +107,8 @@ func summarize(wire []byte) (string, bool) {
 }
 
 // txImpl: `tx <psize> <chan> <pktnr0> <op>…`; ops: q:<payload> QueuePackage, f SendRemainingPackets,
-// s:<payload> SendPackage, ps:<n> packet size (between messages), ht:<n> CurrentHeaderType.
+// s:<payload> SendPackage, ps:<n> packet size (between messages), ht:<n> CurrentHeaderType, rs Channel.Reset
+// (the message queued so far is abandoned).
 // Answer: per op the packets written to the transport during that op, then the tx queue state,
 // then ` # <oracle verdict>`.
 func txImpl(line string) string {
@@ -171,6 +172,25 @@ func txImpl(line string) string {
 			}
 		case "f":
 			e = ch.SendRemainingPackets(ctx)
+		case "rs":
+			// Channel.Reset: the message queued so far is abandoned (packets already on the wire stay there);
+			// the next message starts from scratch — nothing of the abandoned one is left behind
+			if chanId > 0 {
+				for w := msgWire; len(w) >= 8; {
+					l := int(binary.BigEndian.Uint16(w[2:4]))
+					if l < 8 || l > len(w) {
+						break
+					}
+					curNr = (curNr + 1) % 256
+					w = w[l:]
+				}
+			}
+			ch.Reset()
+			msgPayload, msgWire = nil, nil
+			msgStartNr = curNr
+			hdrType = int(tds.TDS_BUF_NORMAL)
+			outs = append(outs, "ok")
+			continue
 		case "ps":
 			n, _ := strconv.Atoi(f[1])
 			conn.VerifSetPacketSize(n)
@@ -408,6 +428,29 @@ func init() {
 			for i := 0; i < nr; i++ {
 				ps := 256 + rng.Intn(3000)
 				emitMsgs("random", ps, rng.Intn(2)*7, 250+rng.Intn(6), []int{1 + rng.Intn(4*ps)}, 2, 0)
+			}
+			// a message abandoned half-way (Channel.Reset with a partly filled packet queued, with and without
+			// full packets already sent), then ordinary messages: nothing of the abandoned one may be left behind
+			nab := 60
+			if tier == "thorough" {
+				nab = 1500
+			}
+			for i := 0; i < nab; i++ {
+				ps := sizes[rng.Intn(len(sizes)-1)]
+				body := ps - 8
+				toks := []string{"tx", strconv.Itoa(ps), strconv.Itoa(rng.Intn(2) * 3), strconv.Itoa(rng.Intn(256))}
+				if rng.Intn(3) == 0 {
+					toks = append(toks, genMessage(rng, ps, 1+rng.Intn(2*body))...)
+				}
+				part := 1 + rng.Intn(body-1)
+				if rng.Intn(3) == 0 {
+					part += body * (1 + rng.Intn(2)) // full packets of the abandoned message are already on the wire
+				}
+				toks = append(toks, fmt.Sprintf("q:g:%d:%d", part, rng.Intn(256)), "rs")
+				for m := 0; m < 1+rng.Intn(2); m++ {
+					toks = append(toks, genMessage(rng, ps, []int{1, 7, body - 1, body, body + 1, 2*body + 3}[rng.Intn(6)])...)
+				}
+				emit(Case{Line: strings.Join(toks, " "), Kind: "abandoned-message"})
 			}
 			// several channels of one connection sending at the same time (C12's scenario, judged by its oracle):
 			// what reaches the shared transport must still parse as consecutive packets, each channel's
